@@ -1,7 +1,9 @@
 (* Lemmas for C02 (completion, orderly close, no silent stall) about Model/Tcp.v.
    Part 1: frame lemmas (what the receive path / send path leave alone), the retransmission-timer
    invariant, close bookkeeping (main-loop exit), the zero-window stall, retransmission time-outs
-   with exponential back-off. *)
+   with exponential back-off, end-of-stream on the receive side.
+   Part 2 (orderly close) is Proofs/TcpCloseOrderP.v, part 3 (facts that need the write-list
+   invariant of C01) is Proofs/TcpCloseSeqP.v. *)
 From Coq Require Import ZArith List Bool Lia ZifyBool.
 From RecordUpdate Require Import RecordSet.
 From NP Require Import Model.Seqnum Model.GoHeap Model.Tcp Proofs.SeqnumP.
@@ -1244,3 +1246,288 @@ Example inflight_fails_after_7 :
   expiries_left 9 (rto (SN inflight_state)) = 7%nat /\
   estate (run inflight_state (repeat ERto 7)) = stError /\ estate (run inflight_state (repeat ERto 6)) = stConnected.
 Proof. vm_compute. auto. Qed.
+
+(* ------------------------------------------------------------------ (3) end of stream on the receive side *)
+Lemma rdata_of_rview t t' : rview t' = rview t ->
+  rclosed (RC t') = rclosed (RC t) /\ rcvNxt (RC t') = rcvNxt (RC t) /\ rcvList t' = rcvList t /\
+  rcvBufUsed t' = rcvBufUsed t /\ rcvClosedE t' = rcvClosedE t.
+Proof.
+  intros V. apply rview_fields in V. destruct V as (R & L & B & _ & C & _).
+  apply rcore_fields in R. destruct R as (N & R & _). auto.
+Qed.
+
+Lemma rcvHandle_closed t sg : rclosed (RC t) = true -> rcvHandle t sg = t.
+Proof. intros H. unfold rcvHandle. rewrite H. reflexivity. Qed.
+
+(* once the peer's FIN has been consumed the receive queue can only be drained *)
+Lemma step_after_eof t e : rclosed (RC t) = true ->
+  let t' := fst (step t e) in
+  rclosed (RC t') = true /\ rcvNxt (RC t') = rcvNxt (RC t) /\
+  (rcvList t' = rcvList t \/ exists v, e = ERead /\ snd (step t e) = RBytes v /\ rcvList t = v :: rcvList t').
+Proof.
+  intros RCL. unfold step. cbv zeta.
+  assert (RCL0 : rclosed (RC (t <| out := [] |>)) = true) by exact RCL.
+  change (RC t) with (RC (t <| out := [] |>)). change (rcvList t) with (rcvList (t <| out := [] |>)).
+  remember (t <| out := [] |>) as t0 eqn:Et. clear Et RCL t. rename t0 into t.
+  assert (KEEP : forall t' (Q : Prop), rclosed (RC t') = rclosed (RC t) /\ rcvNxt (RC t') = rcvNxt (RC t) /\ rcvList t' = rcvList t /\
+                   rcvBufUsed t' = rcvBufUsed t /\ rcvClosedE t' = rcvClosedE t ->
+     rclosed (RC t') = true /\ rcvNxt (RC t') = rcvNxt (RC t) /\ (rcvList t' = rcvList t \/ Q)).
+  { intros t' Q (A & B & C & _). rewrite A. auto. }
+  assert (KL : forall x, rclosed (RC (loopExit x)) = rclosed (RC x) /\ rcvNxt (RC (loopExit x)) = rcvNxt (RC x) /\
+                         rcvList (loopExit x) = rcvList x /\ rcvBufUsed (loopExit x) = rcvBufUsed x /\
+                         rcvClosedE (loopExit x) = rcvClosedE x).
+  { intros x. rewrite loopExit_RC, loopExit_rcvList. destruct (loopExit_misc x) as (_ & A & B & _). auto. }
+  assert (TR : forall a b c : tcp,
+     (rclosed (RC a) = rclosed (RC b) /\ rcvNxt (RC a) = rcvNxt (RC b) /\ rcvList a = rcvList b /\
+      rcvBufUsed a = rcvBufUsed b /\ rcvClosedE a = rcvClosedE b) ->
+     (rclosed (RC b) = rclosed (RC c) /\ rcvNxt (RC b) = rcvNxt (RC c) /\ rcvList b = rcvList c /\
+      rcvBufUsed b = rcvBufUsed c /\ rcvClosedE b = rcvClosedE c) ->
+     (rclosed (RC a) = rclosed (RC c) /\ rcvNxt (RC a) = rcvNxt (RC c) /\ rcvList a = rcvList c /\
+      rcvBufUsed a = rcvBufUsed c /\ rcvClosedE a = rcvClosedE c)).
+  { intros a b c (A1 & A2 & A3 & A4 & A5) (B1 & B2 & B3 & B4 & B5). repeat split; congruence. }
+  assert (MA : forall x (c : bool), rclosed (RC (if c then sendAck x else x)) = rclosed (RC x) /\
+                 rcvNxt (RC (if c then sendAck x else x)) = rcvNxt (RC x) /\
+                 rcvList (if c then sendAck x else x) = rcvList x /\
+                 rcvBufUsed (if c then sendAck x else x) = rcvBufUsed x /\
+                 rcvClosedE (if c then sendAck x else x) = rcvClosedE x).
+  { intros x c. destruct c; [apply rdata_of_rview, sendAck_rview|auto]. }
+  destruct e as [sg nr|d| | |]; cbn [fst].
+  - apply KEEP. unfold handleSegment.
+    destruct (negb (estate t =? stConnected)); [auto|].
+    destruct (has (s_flags sg) fRst).
+    + destruct (acceptable _ _ _); [cbn; auto|]. cbv zeta. eapply TR; [apply KL|apply MA].
+    + cbv zeta. eapply TR; [apply KL|]. eapply TR; [apply MA|].
+      destruct (has (s_flags sg) fAck); [|auto]. destruct (_ && _); [auto|].
+      rewrite (rcvHandle_closed t sg RCL0). apply rdata_of_rview, sndHandle_rview.
+  - apply KEEP. unfold appWrite.
+    destruct (estate t =? stError); [cbn; auto|].
+    destruct (negb (estate t =? stConnected)); [cbn; auto|].
+    destruct (len d =? 0); [cbn; auto|]. destruct (sndClosedE t); [cbn; auto|]. cbv zeta.
+    destruct (_ <=? 0); [cbn; auto|]. cbn [fst].
+    eapply TR; [apply rdata_of_rview, sendData_rview|]. cbn. auto.
+  - unfold appRead.
+    destruct (_ && _ && _); [cbn [fst]; apply KEEP; auto|].
+    destruct (rcvBufUsed t =? 0); [cbn [fst]; apply KEEP; auto|].
+    destruct (rcvList t) as [|v rest] eqn:EL; [cbn [fst]; apply KEEP; auto|]. cbv zeta. cbn [fst snd].
+    set (t1 := t <| rcvList := rest |> <| rcvBufUsed := rcvBufUsed t - len v |>).
+    assert (X : forall x, rclosed (RC x) = rclosed (RC t1) /\ rcvNxt (RC x) = rcvNxt (RC t1) /\ rcvList x = rcvList t1 /\
+                  rcvBufUsed x = rcvBufUsed t1 /\ rcvClosedE x = rcvClosedE t1 ->
+             rclosed (RC x) = true /\ rcvNxt (RC x) = rcvNxt (RC t) /\
+             (rcvList x = v :: rest \/ exists v0, ERead = ERead /\ RBytes v = RBytes v0 /\ v :: rest = v0 :: rcvList x)).
+    { intros x (A & B & C & _). rewrite A, B, C. subst t1. cbn. split; [exact RCL0|]. split; [reflexivity|].
+      right. exists v. auto. }
+    destruct (_ && _ && _); apply X; [|auto].
+    eapply TR; [apply KL|]. apply rdata_of_rview, nonZeroWindow_rview.
+  - apply KEEP. unfold appShutdownWrite.
+    destruct (negb (estate t =? stConnected)); [cbn; auto|]. destruct (sndClosedE t); [cbn; auto|]. cbv zeta. cbn [fst].
+    eapply TR; [apply KL|].
+    match goal with |- context [sendData ?x false] => pose proof (rdata_of_rview _ _ (sendData_rview x false)) as V end.
+    cbn in V |- *. exact V.
+  - apply KEEP. destruct (negb (estate t =? stConnected)); [cbn; auto|].
+    pose proof (rdata_of_rview _ _ (rtoExpired_rview t false)) as V.
+    destruct (rtoExpired t false) as [t1 alive]. cbn [fst] in *. destruct alive; cbn [fst].
+    + eapply TR; [apply KL|exact V].
+    + cbn. exact V.
+Qed.
+
+Lemma no_data_after_eof t es : rclosed (RC t) = true ->
+  rclosed (RC (run t es)) = true /\ rcvNxt (RC (run t es)) = rcvNxt (RC t) /\
+  exists k, rcvList (run t es) = skipn k (rcvList t).
+Proof.
+  revert t. induction es as [|e es IH]; intros t H.
+  - cbn. split; [exact H|]. split; [reflexivity|]. exists 0%nat. reflexivity.
+  - rewrite run_cons. destruct (step_after_eof t e H) as (A & B & C).
+    destruct (IH _ A) as (A' & B' & (k & C')). split; [exact A'|]. split; [congruence|].
+    destruct C as [C|(v & _ & _ & C)].
+    + exists k. rewrite C', C. reflexivity.
+    + exists (S k). rewrite C', C. reflexivity.
+Qed.
+
+(* once end of stream has been reached (receive side closed, queue drained) the queue stays empty *)
+Lemma eof_is_final t es : rclosed (RC t) = true -> rcvList t = [] -> rcvList (run t es) = [].
+Proof.
+  intros H L. destruct (no_data_after_eof t es H) as (_ & _ & (k & E)). rewrite E, L. apply skipn_nil.
+Qed.
+
+(* the receive buffer accounting: rcvBufUsed counts the queued bytes, no queued chunk is empty *)
+Fixpoint lsum (l : list (list Z)) : Z := match l with [] => 0 | v :: r => len v + lsum r end.
+Definition rcv_buf_inv (t : tcp) : Prop :=
+  rcvBufUsed t = lsum (rcvList t) /\ Forall (fun v => v <> []) (rcvList t).
+
+Lemma lsum_app a b : lsum (a ++ b) = lsum a + lsum b.
+Proof. induction a as [|x a IH]; cbn [lsum app]; [lia|]. rewrite IH. lia. Qed.
+Lemma lsum_zero l : Forall (fun v => v <> []) l -> lsum l = 0 -> l = [].
+Proof.
+  intros F H. destruct l as [|v l]; [reflexivity|]. exfalso. inversion F as [|? ? NV FL]; subst.
+  assert (0 <= lsum l) by (clear; induction l as [|x l IH]; cbn [lsum]; [lia|]; pose proof (len_nonneg x); lia).
+  cbn [lsum] in H. pose proof (len_nonneg v). assert (len v = 0) by lia.
+  apply NV. apply len_zero_iff. apply Z.eqb_eq. assumption.
+Qed.
+
+Lemma readyToRead_buf t d : d <> [] -> rcv_buf_inv t -> rcv_buf_inv (readyToRead t d).
+Proof.
+  intros D [A B]. unfold rcv_buf_inv, readyToRead. cbn [rcvBufUsed rcvList set]. cbn. rewrite lsum_app, A. cbn [lsum]. split; [lia|].
+  apply Forall_app. auto.
+Qed.
+
+Lemma rcv_buf_inv_same t t' : rcvBufUsed t' = rcvBufUsed t -> rcvList t' = rcvList t -> rcv_buf_inv t -> rcv_buf_inv t'.
+Proof. intros A B. unfold rcv_buf_inv. rewrite A, B. auto. Qed.
+Lemma rcv_buf_inv_rview t t' : rview t' = rview t -> rcv_buf_inv t -> rcv_buf_inv t'.
+Proof. intros V. apply rdata_of_rview in V. destruct V as (_ & _ & L & B & _). apply rcv_buf_inv_same; auto. Qed.
+
+Lemma dropZ_nonnil k (d : list Z) : 0 <= k < len d -> dropZ k d <> [].
+Proof.
+  intros K. unfold dropZ. intros E. apply (f_equal (@length Z)) in E. rewrite skipn_length in E.
+  unfold len in K. cbn in E. lia.
+Qed.
+
+Lemma trim_lt sq sl nxt : 0 <= sl -> inWindow nxt sq sl = true -> 0 <= size sq nxt < sl.
+Proof. intros S H. apply Z.ltb_lt in H. revert H. word. Qed.
+
+Lemma consumeSegment_buf t fl d sq fh :
+  rcv_buf_inv t -> rcv_buf_inv (fst (fst (consumeSegment t fl d sq (len d) fh))).
+Proof.
+  intros H. unfold consumeSegment. cbv zeta.
+  assert (GO : forall t0 sq0 sl0 (d0 : list Z), rcv_buf_inv t0 ->
+    rcv_buf_inv (fst (fst (if has fl fFin then
+        let t1 := t0 <| RC := (RC t0) <| rcvNxt := add sq0 sl0 |> |> in
+        let t2 := t1 <| RC := (RC t1) <| rcvNxt := u32 (rcvNxt (RC t1) + 1) |> |> in
+        let t3 := sendAck t2 in
+        let first := if fh && negb (Nat.eqb (length (pending (RC t3))) 0) then 1%nat else 0%nat in
+        (t3 <| RC := (RC t3) <| rclosed := true |> <| pending := firstn first (pending (RC t3)) |> |>
+            <| rcvClosedE := true |>, true, d0)
+      else (t0 <| RC := (RC t0) <| rcvNxt := add sq0 sl0 |> |>, true, d0))))).
+  { intros t0 sq0 sl0 d0 E. destruct (has fl fFin); cbv zeta; cbn [fst]; [|exact E].
+    match goal with |- context [sendAck ?x] =>
+      assert (E3 : rcv_buf_inv (sendAck x)) by (eapply rcv_buf_inv_rview; [apply sendAck_rview|exact E]);
+      generalize dependent (sendAck x) end.
+    intros t3 E3. exact E3. }
+  destruct (0 <? len d) eqn:EP.
+  - apply Z.ltb_lt in EP.
+    destruct (negb (inWindow (rcvNxt (RC t)) sq (len d))) eqn:EW; [exact H|]. apply negb_false_iff in EW.
+    destruct (lessThan sq (rcvNxt (RC t))); apply GO; apply readyToRead_buf; auto.
+    + apply dropZ_nonnil. apply trim_lt; [lia|exact EW].
+    + intros ->. cbn in EP. lia.
+  - destruct (negb (sq =? rcvNxt (RC t))); [exact H|]. apply GO; exact H.
+Qed.
+
+Lemma drainPending_buf fuel : forall t, rcv_buf_inv t -> rcv_buf_inv (drainPending fuel t).
+Proof.
+  induction fuel as [|f IH]; intros t H; [exact H|].
+  cbn [drainPending]. destruct (rclosed (RC t)); [exact H|].
+  destruct (pending (RC t)) as [|s rest] eqn:EP; [exact H|]. cbv zeta.
+  assert (POP : forall t0 (d0 : list Z) hp, rcv_buf_inv t0 ->
+     rcv_buf_inv (match pop pless hp with
+            | Some (h', _) => drainPending f (t0 <| RC := (RC t0) <| pending := h' |>
+                       <| pendUsed := u32 (pendUsed (RC t0) - plogicalLen (p_flags s) d0) |> |>)
+            | None => t0 end)).
+  { intros t0 d0 hp E. destruct (pop pless hp) as [[h' x]|]; [|exact E]. apply IH. exact E. }
+  destruct (lessThan _ _); [apply POP; exact H|].
+  pose proof (consumeSegment_buf t (p_flags s) (p_data s) (p_seq s) true H) as CS.
+  destruct (consumeSegment t (p_flags s) (p_data s) (p_seq s) (len (p_data s)) true) as [[t1 ok] d'].
+  cbn [fst] in CS. destruct ok; [apply POP; exact CS|exact H].
+Qed.
+
+Lemma rcvHandle_buf t s : rcv_buf_inv t -> rcv_buf_inv (rcvHandle t s).
+Proof.
+  intros H. unfold rcvHandle. destruct (rclosed (RC t)); [exact H|]. cbv zeta.
+  destruct (negb (acceptable _ _ _)); [eapply rcv_buf_inv_rview; [apply sendAck_rview|exact H]|].
+  pose proof (consumeSegment_buf t (s_flags s) (s_data s) (s_seq s) false H) as CS.
+  destruct (consumeSegment t (s_flags s) (s_data s) (s_seq s) (len (s_data s)) false) as [[t1 ok] d'].
+  cbn [fst] in CS. destruct ok; cbn [negb].
+  - apply drainPending_buf. exact CS.
+  - destruct (_ || _); [|exact H]. eapply rcv_buf_inv_rview; [apply sendAck_rview|].
+    destruct (pendUsed (RC t) <? pendSize (RC t)); exact H.
+Qed.
+
+Lemma step_rcv_buf_inv t e : rcv_buf_inv t -> rcv_buf_inv (fst (step t e)).
+Proof.
+  intros H0. assert (H : rcv_buf_inv (t <| out := [] |>)) by exact H0. clear H0.
+  unfold step. cbv zeta. remember (t <| out := [] |>) as t0 eqn:Et. clear Et t. rename t0 into t.
+  assert (KL : forall x, rcv_buf_inv x -> rcv_buf_inv (loopExit x)).
+  { intros x. apply rcv_buf_inv_same; [apply loopExit_misc|apply loopExit_rcvList]. }
+  assert (MA : forall x (c : bool), rcv_buf_inv x -> rcv_buf_inv (if c then sendAck x else x)).
+  { intros x c Hx. destruct c; [eapply rcv_buf_inv_rview; [apply sendAck_rview|exact Hx]|exact Hx]. }
+  destruct e as [sg nr|d| | |]; cbn [fst].
+  - unfold handleSegment. destruct (negb (estate t =? stConnected)); [exact H|].
+    destruct (has (s_flags sg) fRst).
+    + destruct (acceptable _ _ _); [exact H|]. cbv zeta. apply KL, MA, H.
+    + cbv zeta. apply KL, MA. destruct (has (s_flags sg) fAck); [|exact H]. destruct (_ && _); [exact H|].
+      eapply rcv_buf_inv_rview; [apply sndHandle_rview|]. apply rcvHandle_buf, H.
+  - unfold appWrite. destruct (estate t =? stError); [exact H|].
+    destruct (negb (estate t =? stConnected)); [exact H|]. destruct (len d =? 0); [exact H|].
+    destruct (sndClosedE t); [exact H|]. cbv zeta. destruct (_ <=? 0); [exact H|]. cbn [fst].
+    eapply rcv_buf_inv_rview; [apply sendData_rview|]. exact H.
+  - unfold appRead. destruct (_ && _ && _); [exact H|]. destruct (rcvBufUsed t =? 0); [exact H|].
+    destruct (rcvList t) as [|v rest] eqn:EL; [exact H|]. cbv zeta. cbn [fst].
+    assert (H1 : rcv_buf_inv (t <| rcvList := rest |> <| rcvBufUsed := rcvBufUsed t - len v |>)).
+    { destruct H as [A B]. unfold rcv_buf_inv. cbn. rewrite EL in *. cbn in A. inversion B; subst. split; [lia|assumption]. }
+    destruct (_ && _ && _); [|exact H1]. apply KL. eapply rcv_buf_inv_rview; [apply nonZeroWindow_rview|exact H1].
+  - unfold appShutdownWrite. destruct (negb (estate t =? stConnected)); [exact H|].
+    destruct (sndClosedE t); [exact H|]. cbv zeta. cbn [fst]. apply KL.
+    match goal with |- context [sendData ?x false] =>
+      assert (HX : rcv_buf_inv (sendData x false)) by (eapply rcv_buf_inv_rview; [apply sendData_rview|exact H]) end.
+    exact HX.
+  - destruct (negb (estate t =? stConnected)); [exact H|].
+    pose proof (rtoExpired_rview t false) as V. destruct (rtoExpired t false) as [t1 alive]. cbn [fst] in *.
+    assert (H1 : rcv_buf_inv t1) by (eapply rcv_buf_inv_rview; eauto).
+    destruct alive; cbn [fst]; [apply KL, H1|exact H1].
+Qed.
+
+(* a read on a connected endpoint reports end of stream exactly when the queue is empty and the
+   peer's FIN has been consumed; otherwise it returns the first queued chunk or would-block *)
+Lemma read_eof_iff t : estate t = stConnected -> rcv_buf_inv t ->
+  (snd (step t ERead) = RErr (-6) <-> rcvList t = [] /\ rcvClosedE t = true) /\
+  (forall v, snd (step t ERead) = RBytes v <-> exists r, rcvList t = v :: r).
+Proof.
+  intros EC [A B]. unfold step. cbv zeta. unfold appRead.
+  change (estate (t <| out := [] |>)) with (estate t). change (rcvBufUsed (t <| out := [] |>)) with (rcvBufUsed t).
+  change (rcvList (t <| out := [] |>)) with (rcvList t). change (rcvClosedE (t <| out := [] |>)) with (rcvClosedE t).
+  rewrite EC. change (stConnected =? stConnected) with true. cbn [negb andb orb].
+  destruct (rcvBufUsed t =? 0) eqn:E0.
+  - apply Z.eqb_eq in E0. rewrite E0 in A. symmetry in A. apply (lsum_zero _ B) in A. rewrite A. cbn [snd].
+    split.
+    + destruct (rcvClosedE t); split; auto; try (intros [_ X]; discriminate); discriminate.
+    + intros v. split; [discriminate|intros [r X]; discriminate].
+  - destruct (rcvList t) as [|v rest] eqn:EL.
+    + exfalso. cbn in A. apply Z.eqb_neq in E0. contradiction.
+    + cbv zeta. cbn [snd]. split.
+      * split; [discriminate|intros [X _]; discriminate].
+      * intros v0. split; [intros X; inversion X; eauto|intros [r X]; inversion X; reflexivity].
+Qed.
+
+Example fresh_rcv_buf_inv iss irs mp wnd : rcv_buf_inv (fresh_conn iss irs mp wnd).
+Proof. split; [reflexivity|constructor]. Qed.
+
+(* ------------------------------------------------------------------ statements in explicit form *)
+Lemma closed_iff_all_done_explicit t es : close_inv t ->
+  let t' := run t es in
+  sclosed (SN t') = sndClosedE t' /\ rclosed (RC t') = rcvClosedE t' /\
+  (estate t' = stConnected ->
+     rclosed (RC t') && sclosed (SN t') && (sndUna (SN t') =? sndNxtList (SN t')) = false) /\
+  (estate t' = stClosed ->
+     rclosed (RC t') && sclosed (SN t') && (sndUna (SN t') =? sndNxtList (SN t')) = true) /\
+  (estate t' = stConnected \/ estate t' = stClosed \/ estate t' = stError).
+Proof.
+  intros H. cbv zeta. destruct (closed_iff_all_done t es H) as ([A B] & C & D & E).
+  unfold rc_eq, exit_cond in *. auto.
+Qed.
+
+Lemma zero_window_stall_witness :
+  exists t, (exists es, t = run (fresh_conn 1000 5000 1460 30000) es) /\
+    estate t = stConnected /\ wunsent (SN t) <> [] /\ sndWnd (SN t) = 0 /\
+    sndUna (SN t) = sndNxt (SN t) /\ tstate (SN t) <> tEnabled /\
+    forall es', no_segment es' ->
+      estate (run t es') = stConnected /\ wunsent (SN (run t es')) <> [] /\
+      tstate (SN (run t es')) <> tEnabled /\ Forall pure_ack (run_out t es').
+Proof.
+  exists stall_state. split; [exists stall_run; reflexivity|].
+  pose proof stall_state_stalled as ST.
+  assert (G : forall t, stalled t -> estate t = stConnected /\ wunsent (SN t) <> [] /\ sndWnd (SN t) = 0 /\
+                                   sndUna (SN t) = sndNxt (SN t) /\ tstate (SN t) <> tEnabled).
+  { intros t (A & B & _ & C & D & (w & rest & E & _) & _). rewrite E. repeat split; auto. discriminate. }
+  destruct (G _ ST) as (A & B & C & D & E).
+  split; [exact A|]. split; [exact B|]. split; [exact C|]. split; [exact D|]. split; [exact E|].
+  intros es' NS. destruct (stalled_forever _ es' ST NS) as (ST' & O & _).
+  destruct (G _ ST') as (A' & B' & _ & _ & E'). auto.
+Qed.
